@@ -7,7 +7,7 @@ Tree syntax (prefix, whitespace separated):
 Object identities / value tokens are assigned by one counter in parse order (module, its parameters,
 its buffers, then its children), the harness numbers the real objects the same way.
 
-Requests (`<v>` = 5 variant bits walkAll kwIN kwLSTM kwMHA inDropBuffers):
+Requests (`<v>` = 6 variant bits walkAll kwIN kwLSTM kwMHA inDropBuffers keepMode):
   `validate <v> <tree>`                 → `mv=<classes|-> gsm=<n> tm=<trainable names|-> sem=<path:couples:updates,…>`
   `mkpriv <v> <k> <o1> … <ok> <tree>`   → `ok` | `err:<Exception>[:detail]`   (oi = parameter number | `F` foreign)
   `fix <v> <rbi -|0|1> <ng -|n> <extra 0|1> <tree>` → `err:<Exception>` | `ok <dump>`
@@ -16,7 +16,8 @@ open Opacus Opacus.Proto Opacus.Validate
 
 def parseVariant (s : String) : Option Variant :=
   match s.toList.map (· == '1') with
-  | [a, b, c, d, e] => some ⟨a, b, c, d, e⟩
+  | [a, b, c, d, e, f] => some ⟨a, b, c, d, e, f⟩
+  | [a, b, c, d, e] => some ⟨a, b, c, d, e, false⟩
   | _ => none
 
 def takeN {α} (f : List String → Option (α × List String)) : Nat → List String → Option (List α × List String)
